@@ -31,6 +31,8 @@ theorem combine_eq (crc t : BitVec 16) :
     tr 16 ((BitVec.sshiftRight (zx 32 crc) 8) ^^^ (zx 32 t)) = (crc >>> 8) ^^^ t := by
   simp only [tr, zx]; bv_decide
 
+theorem sx0 : (sx 64 (0#32)).toNat = 0 := by decide
+
 theorem gen_crc16_octet (fuel : Nat) (crc : BitVec 16) (data : BitVec 8) :
     Ufw.Gen.CrcLoops.crc16_octet fuel crc data = Res.val (Ufw.Gen.CrcTable.crc16_octet crc data) := by
   unfold Ufw.Gen.CrcLoops.crc16_octet Ufw.Gen.CrcTable.crc16_octet Ufw.Gen.CrcTable.tableAt
